@@ -247,7 +247,7 @@ class BlockModel:
         return tr
 
     # -- mode-based blocks ---------------------------------------------------------------------------
-    def load(self, saved):
+    def load(self, saved, now=0.0, idx=0):
         """The mode that owns the block starts.  `saved` = persisted (value, enabled, completed) or None."""
         self.loaded = True
         self.epoch += 1
@@ -255,6 +255,9 @@ class BlockModel:
         if saved is not None:
             self.value, self.enabled, self.completed = saved[0], saved[1], saved[2]
             self.pending_start_enable = False
+            if self.enabled and not self.completed:
+                # whether the timer of a restored, enabled block runs again is not documented (R-timer-may)
+                self.timer.add_candidate(now, idx)
         else:
             self.value = self.start_value()
             self.enabled = False
